@@ -352,11 +352,11 @@ fn bernstein_t(nn: f64, p: f64, l: f64) -> f64 {
 
 /// long inputs on real streams: frequency of every data position among the draws
 fn frequencies(run: &Run) {
-    let ns: Vec<usize> = vec![2, 3, 4, 5, 8, 9, 16, 17, 33, 64, 65, 100, 129, 257, 1000, 1025, 2000];
+    let ns: Vec<usize> = vec![2, 3, 4, 5, 8, 9, 16, 17, 33, 64, 65, 100, 129, 257, 700, 1000, 1025, 1999, 2000];
     let total = run.tier.pick(1_000_000usize, 8_000_000usize);
     let seeds = run.tier.pick(100usize, 10_000usize);
     // cells tested: per n, n label totals and (n ≤ 17) n² position × label cells
-    let cells: f64 = ns.iter().map(|&n| (n + if n <= 17 { n * n } else { 0 }) as f64).sum();
+    let cells: f64 = ns.iter().map(|&n| (n + n.min(32) + if n <= 17 { n * n } else { 0 }) as f64).sum();
     let l = (2.0 * cells / 1e-12).ln();
     run.bound("frequency test", format!("{} draws per length over {} seeds, lengths {:?}, {} cells, Bernstein bound per cell and Pearson statistic per length, total false-alarm probability 1e-12; lengths >= 1000 get 20 times the draws", total, seeds, ns, cells));
     ns.par_iter().for_each(|&n| {
@@ -369,6 +369,9 @@ fn frequencies(run: &Run) {
         let mut tot = vec![0u64; n];
         let mut pos = vec![0u64; if n <= 17 { n * n } else { 0 }];
         let mut draws = 0u64;
+        // slot-by-position cells for every length, pooled along diagonals: output slot i took data position i + d (mod n)
+        let nd = n.min(32);
+        let mut diag = vec![0u64; nd];
         for s in 0..seeds {
             alea::set_seed((s as u64) * 2 + 1 + (n as u64) * 1_000_003);
             // termination on real streams: a watchdog of 1000 draws per requested element
@@ -396,6 +399,10 @@ fn frequencies(run: &Run) {
                         return;
                     }
                     tot[j as usize] += 1;
+                    let d = (j as usize + n - i % n) % n;
+                    if d < nd {
+                        diag[d] += 1;
+                    }
                     if n <= 17 {
                         pos[i * n + j as usize] += 1;
                     }
@@ -414,6 +421,15 @@ fn frequencies(run: &Run) {
                 ok = false;
                 run.violate("bootstrap/position-not-equally-likely/frequencies", || format!("bootstrap of {} elements, {} draws on {} seeded streams: data position {} was drawn {} times, expected {:.1} ± {:.1} (Bernstein, 1e-12 overall); counts {:?}", n, draws, seeds, j, c, draws as f64 * p, t, &tot[..n.min(20)]));
                 break;
+            }
+        }
+        if ok {
+            for (d, &c) in diag.iter().enumerate() {
+                if (c as f64 - draws as f64 * p).abs() > t {
+                    ok = false;
+                    run.violate("bootstrap/position-not-equally-likely/slot-and-position", || format!("bootstrap of {} elements, {} draws on {} seeded streams: output slot i took data position i+{} (mod n) {} times, expected {:.1} ± {:.1} (every slot draws every position with probability 1/n)", n, draws, seeds, d, c, draws as f64 * p, t));
+                    break;
+                }
             }
         }
         if n <= 17 && ok {
